@@ -26,6 +26,8 @@ def file_lines(d, shape, n):
                 items.append((k, ["1", "2"] if k == "a_last" else ["%s%d" % (k[0], i)]))
         elif shape == "flags":
             items = [("ID", [fid]), ("tag", tag), ("flagged", [])]
+            # comma lists with an empty element (doubled / trailing comma), where the dialect writes lists with commas
+            items.append(("Dbxref", (["a", "", "b"] if i % 2 else ["m%d" % i, ""]) if d.multi == "comma" else ["a", "b"]))
             if i % 2:
                 items.append(("Name", ["q"]))
         elif shape == "escapes":
@@ -46,6 +48,8 @@ def file_lines(d, shape, n):
                 cols[3], cols[4] = "9007199254740993", "9223372036854775807"      # integers a double cannot hold
             if i % 3 == 2:
                 cols[5], cols[7] = "0.9", "2"
+            if i % 6 == 2:
+                cols[3], cols[4] = "536870911", "536870912"        # ends exactly at 2**29, the limit of the binning scheme
             extras = [[], ["e1"], ["e1", "e 2"], ["e1", ""], [""], ["", "x"], ["7"], ["true"], ['"q"'], ["[1,2]"], ["null"]][i % 11]   # incl. empty / JSON-looking
         elif shape == "parent":
             items = [("ID", [fid]), ("tag", tag)]
